@@ -485,7 +485,10 @@ pub fn run(args: &Args) {
         run.case("dcpre", &format!("{} {}", role_text(ro), role_text(ra)), &format!("{} {}", oid, pre.id), true);
         if p.negotiate().await.is_ok() && p.wait_connected(T_CONNECT).await.is_ok() {
             // after negotiation the answerer is the DTLS server: its pre-created channel still has a client-parity id
-            if oid == pre.id { run.fail("dc:both-ends-precreate:same-stream-id", "dcpre", &format!("offerer channel id {} == answerer channel id {} (both allocated with role None)", oid, pre.id)); }
+            // OBSERVATION, not a C10 finding (audit r2-E1): both pre-created channels get stream id 0 and are
+            // silently fused into one stream (RFC 8832 channel identity) — but a message still arrives intact in
+            // each direction, which is all the C10 clause asks; recorded in the evidence notes.
+            if oid == pre.id { run.count("observation_dc_precreate_same_stream_id"); run.notes.insert("observation_dc_precreate".into(), serde_json::json!(format!("offerer channel id {} == answerer channel id {} (both allocated with role None; model: dc_ids_collide_before_negotiation_witness) - outside the C10 clauses", oid, pre.id))); }
         }
         p.off.pc.close(); p.ans.pc.close();
     });
@@ -509,8 +512,37 @@ pub fn run(args: &Args) {
             run.case("muxsdp", &format!("{} {} {} {}", mo as u8, lo as u8, ma as u8, la as u8), &out, mo != ma || lo != la);
             // oracle: an end that does not multiplex must advertise (= have bound) an RTCP port
             if out == "mux=1/0 rtcp=0/0" || out.ends_with("rtcp=0/0") && out.starts_with("mux=0/0") {
-                run.fail(&format!("mux:rtp-mixed-policy:{}{}{}{}:no-rtcp-mux-and-no-rtcp-port", mo as u8, lo as u8, ma as u8, la as u8), &format!("muxsdp {} {} {} {}", mo as u8, lo as u8, ma as u8, la as u8), &out);
+                // OBSERVATION, not a C10 finding (audit r2-E2): no C10 clause mentions RTCP and no connection is
+                // attempted for mixed-policy pairs; recorded in the evidence notes.
+                run.count("observation_mixed_policy_no_rtcp_port");
+                run.notes.insert(format!("observation_mux_mixed_policy_{}{}{}{}", mo as u8, lo as u8, ma as u8, la as u8), serde_json::json!(format!("{out}: the answer drops rtcp-mux and neither end bound an RTCP socket (model: mux_mixed_policy_no_rtcp_socket_witness) - outside the C10 clauses")));
             }
+            o.close(); a.close();
+        }}}}
+    });
+
+    // (2d) the same with TWO media sections (audio + video): BUNDLE decision of offer and answer for mixed
+    // compatibility modes (the `!LegacySip` conjunct of the answer's `will_bundle`, audit r2-D1) and the
+    // per-section RTCP socket of every non-first non-BUNDLE section (the offer arm of the per-section
+    // `needs_rtcp`, audit r2-D2): `a=group:BUNDLE`, and per section `a=rtcp-mux` / `a=rtcp` (Rtp mode writes
+    // `a=rtcp` exactly when the section does not multiplex and its transport bound an RTCP socket)
+    rt.block_on(async {
+        for mo in [true, false] { for lo in [false, true] { for ma in [true, false] { for la in [false, true] {
+            let mk = |mux: bool, legacy: bool| { let c = Cfg { mode: Mode::Rtp, mix: Mix::AudioVideo, bundle: 0, mux_require: mux, ice: IceOpt::Full, latching: false, legacy, p_offers: true }; PeerConnection::new(rtc_config(&c, true, &Knobs::default())) };
+            let (o, a) = (mk(mo, lo), mk(ma, la));
+            for pc in [&o, &a] { pc.add_transceiver(MediaKind::Audio, rustrtc::TransceiverDirection::SendRecv); pc.add_transceiver(MediaKind::Video, rustrtc::TransceiverDirection::SendRecv); }
+            let r: Result<String, String> = async {
+                let offer = o.create_offer().await.map_err(|e| e.to_string())?;
+                o.set_local_description(offer.clone()).map_err(|e| e.to_string())?;
+                a.set_remote_description(offer.clone()).await.map_err(|e| e.to_string())?;
+                let answer = a.create_answer().await.map_err(|e| e.to_string())?;
+                let grp = |d: &SessionDescription| d.session.attributes.iter().any(|x| x.key == "group" && x.value.as_deref().is_some_and(|v| v.starts_with("BUNDLE"))) as u8;
+                let per = |d: &SessionDescription, k: &str| d.media_sections.iter().map(|m| if m.attributes.iter().any(|x| x.key == k) { '1' } else { '0' }).collect::<String>();
+                let ports = |d: &SessionDescription| { let v: Vec<u16> = d.media_sections.iter().map(|m| m.port).collect(); (v.len() == 2 && v[0] == v[1]) as u8 };
+                Ok(format!("grp={}/{} sameport={}/{} mux={}/{} rtcp={}/{}", grp(&offer), grp(&answer), ports(&offer), ports(&answer), per(&offer, "rtcp-mux"), per(&answer, "rtcp-mux"), per(&offer, "rtcp"), per(&answer, "rtcp")))
+            }.await;
+            let out = r.unwrap_or_else(|e| format!("err:{e}"));
+            run.case("muxsdp2", &format!("{} {} {} {}", mo as u8, lo as u8, ma as u8, la as u8), &out, mo != ma || lo != la);
             o.close(); a.close();
         }}}}
     });
@@ -563,7 +595,10 @@ pub fn run(args: &Args) {
                 let first = live_oracles(&c, &o);
                 let timeout_only = !first.is_empty() && first.iter().all(|(_, d)| d.contains("not connected within") || d.contains("no RTP within") || d.contains("within 10s") || d.contains("not delivered within") || d.contains("not open within"));
                 let mut retried = false;
-                if timeout_only { retried = true; o = exec_live(c, i % 3 == 0).await; }
+                // never retry the points whose time-out IS the listed known finding (Srtp, two non-BUNDLE
+                // sections): the retry counter then counts unexpected first-attempt time-outs only
+                let known_point = c.mode == Mode::Srtp && c.legacy && c.mix == Mix::AudioVideo;
+                if timeout_only && !known_point { retried = true; o = exec_live(c, i % 3 == 0).await; }
                 o.retried_after_timeout = retried;
                 (c, o)
             }));
